@@ -82,6 +82,9 @@ pub enum Act {
     Adopt { slot: u8, dst: u8 },
     /// GradientDescent::new(lr).update(handles in `slots`)
     Update { slots: Args, lr: u8 },
+    /// op(args) on operands the reference says must be refused: the call must panic, and (caught)
+    /// leave every handle and all hidden bookkeeping exactly as they were
+    Refused { op: u8, args: Args },
 }
 
 pub const LRS: [f64; 2] = [0.5, 2.0];
@@ -116,6 +119,11 @@ pub fn fmt_act(cfg: &MCfg, a: &Act) -> String {
         }
         Act::Fetch { slot, dst } => format!("h{}=h{}.gradient().clone().unwrap()", dst, slot),
         Act::Adopt { slot, dst } => format!("h{}=h{}.gradient().clone().unwrap().tracked()", dst, slot),
+        Act::Refused { op, args } => format!(
+            "must-refuse:{}({})",
+            cfg.ops[*op as usize].name(),
+            args.iter().map(|a| format!("h{}", a)).collect::<Vec<_>>().join(",")
+        ),
         Act::Update { slots, lr } => format!(
             "gd({}).update([{}])",
             LRS[*lr as usize],
@@ -157,6 +165,8 @@ pub struct Bounds {
     pub adopts: u8,
     pub updates: u8,
     pub depth: u8,
+    /// refused builds per history (executed, must panic, must leave no trace)
+    pub refusals: u8,
 }
 
 #[derive(Clone, Debug)]
@@ -466,6 +476,7 @@ impl RWorld {
                 let id = self.nodes.len() - 1;
                 self.slots[*dst as usize] = Some(RHandle { node: id, tracked: has_graph, keep: has_graph });
             }
+            Act::Refused { .. } => {}
             Act::Clone { src, dst } => {
                 self.slots[*dst as usize] = self.slots[*src as usize].clone();
             }
@@ -765,6 +776,15 @@ impl IWorld {
                     apply_impl(&cfg.ops[*op as usize], &refs, tag)
                 };
                 self.slots[*dst as usize] = Some(r);
+            }
+            Act::Refused { op, args } => {
+                let refused = {
+                    let refs: Vec<&Array> = args.iter().map(|s| self.slots[*s as usize].as_ref().unwrap()).collect();
+                    run_catch(|| apply_impl(&cfg.ops[*op as usize], &refs, tag).dimensions().to_vec())
+                };
+                if let Ok(d) = refused {
+                    panic!("an operation on inadmissible operands returned a result of dimensions {:?} instead of refusing", d);
+                }
             }
             Act::Clone { src, dst } => {
                 let c = self.slots[*src as usize].as_ref().unwrap().clone();
@@ -1237,7 +1257,7 @@ pub struct MState {
     pub hist: Vec<Act>,
     /// hash of the canonical state when states are merged, (0,0) when the history is the state
     pub key: (u64, u64),
-    pub used: [u8; 9],
+    pub used: [u8; 10],
 }
 
 impl PartialEq for MState {
@@ -1288,13 +1308,14 @@ fn used_index(a: &Act) -> usize {
         Act::Fetch { .. } => 6,
         Act::Adopt { .. } => 7,
         Act::Update { .. } => 8,
+        Act::Refused { .. } => 9,
     }
 }
 
 impl Machine {
-    fn budget(&self) -> [u8; 9] {
+    fn budget(&self) -> [u8; 10] {
         let b = &self.cfg.bounds;
-        [b.builds, b.passes, b.clears, b.drops, b.clones, b.flags, b.fetches, b.adopts, b.updates]
+        [b.builds, b.passes, b.clears, b.drops, b.clones, b.flags, b.fetches, b.adopts, b.updates, b.refusals]
     }
 
     /// the enabled actions, simplest first
@@ -1334,6 +1355,11 @@ impl Machine {
                         match apply_ref(op, &refs) {
                             Ok(_) => {}
                             Err(e) => {
+                                if e == RErr::Refuse && left(9) {
+                                    // executed after all: the call must panic and leave no trace
+                                    out.push(Act::Refused { op: oi as u8, args: Args::from_slice(&args) });
+                                    continue;
+                                }
                                 // counted: what a machine leaves out is where something can hide
                                 let c = match e {
                                     RErr::Refuse => &FILTERED_BUILDS[0],
@@ -1504,7 +1530,7 @@ impl stateright::Model for Machine {
 
     fn init_states(&self) -> Vec<MState> {
         match replay(&self.cfg, &[]) {
-            StepResult::Ok(r) => vec![MState { hist: vec![], key: r.key, used: [0; 9] }],
+            StepResult::Ok(r) => vec![MState { hist: vec![], key: r.key, used: [0; 10] }],
             _ => machinery_error("the initial state of a machine does not replay"),
         }
     }
